@@ -160,7 +160,7 @@ TRankVecs(n) == {r \in [1..n -> 1..TMaxRank] : ProdSeq(r) <= TMaxCore}
 Modes0(s) == 0..(Len(s) - 1)
 BaseCfg == [op |-> "none", kind |-> "cp", shape |-> <<>>, rank |-> <<>>, family |-> "generic", how |-> "function",
             mode |-> 0, operand |-> "none", odim |-> 0, keep |-> FALSE, copy |-> FALSE, npad |-> 0, padb |-> FALSE,
-            lens |-> <<>>, maxrank |-> 0, thr |-> 0, listin |-> FALSE]
+            lens |-> <<>>, maxrank |-> 0, thr |-> 0, listin |-> FALSE, mag |-> 0]
 HasWideOther(s, m) == \E k \in 1..Len(s) : k # m + 1 /\ s[k] >= 2
 P2Cfgs(R) == {<<js, K>> : js \in {j \in [1..2 -> 1..3] : \A i \in 1..2 : j[i] >= R}, K \in 1..3}
 
@@ -276,6 +276,7 @@ GenV(I)    == [k \in 1..I |-> ((k * 3 + 1) % 5) - 2]
 TCfgOK(c) ==
     LET in == TGenIn(c, FALSE)  kd == c.kind IN
     /\ (kd # "slices" => Valid(kd, in))
+    /\ (c.mag # 0 => MagMove(kd, in))
     /\ CASE c.op = "svd_compress" ->
               \* the slices have the promised shapes, and their rank bound fits under the number of kept singular triplets
               /\ KeepsAll(c)
@@ -334,8 +335,20 @@ InSvdDomain(c) == c.op = "svd_compress" =>
                     /\ KeepsAll(c)
                     /\ (c.thr = 1 => c.maxrank = 0)
                     /\ (Len(c.lens) = 3 => c.thr = 0 /\ c.maxrank \in {0, c.rank[1]})
+\* MAGNITUDE twins.  One factor column (one whole core for TT / TR / TT-matrix) of the integer input is scaled by
+\* 2^mag and the compensating 2^-mag goes to the weights / another factor / the core slice / another core, so
+\* that the dense tensor stays moderate.  Power-of-two scalings are exact in floating point and can be moved
+\* between the parts of a component without changing the represented tensor (Factorized!MagMove, TLC-checked
+\* below): the exact expectation and every clause stay as they are -- in particular "unit column norms unless
+\* the column is exactly zero", which a tolerance-based zero test (norm < eps) violates.
+TMags == <<-500, -70, -30, 40, 300>>
+MagOp(c) == /\ c.op \in {"normalize", "cp_flip_sign", "cp_permute_factors", "pad_tt_rank", "cp_mode_dot", "tucker_mode_dot"}
+            /\ ~(c.kind = "ttm" /\ Len(c.shape) = 2)                   \* a single core has nothing to compensate with
+MagTwin(c) == [c EXCEPT !.mag = TMags[(((Checksum(c) \div Thin) \div 3 + Len(c.shape) + SumSeq(c.rank)) % 5) + 1]]
 TNext == "shape" \in DOMAIN cfg /\ "family" \notin DOMAIN cfg
-         /\ cfg' \in {TExpand(c) : c \in {x \in TCfgs(cfg) : Kept(x) /\ InSvdDomain(x)}}
+         /\ LET base == {x \in TCfgs(cfg) : Kept(x) /\ InSvdDomain(x)} IN
+            cfg' \in {TExpand(c) : c \in base}
+                     \cup {TExpand(MagTwin(c)) : c \in {x \in base : MagOp(x) /\ (Checksum(x) \div Thin) % 3 = 0}}
 TSpec == TInit /\ [][TNext]_cfg
 TSpecOK == "family" \in DOMAIN cfg => TCfgOK(cfg)
 =============================================================================
